@@ -8,18 +8,30 @@ ID="$1"; TIER="${2:-${VERIF_TIER:-quick}}"; shift; shift 2>/dev/null
 mkdir -p /verif/bin /verif/out /verif/evidence
 BIN=/verif/bin/check
 TAGS="-tags verif"
+# VERIF_REPO: check another copy of the repository (scratch worktrees for seeded changes);
+# the registered commands always use /repo.
+REPO="${VERIF_REPO:-/repo}"
+MODFILE=""
+SFX=""
+if [ "$REPO" != "/repo" ]; then
+  SFX="-$(echo "$REPO" | tr -c 'A-Za-z0-9\n' '_')"
+  sed "s#=> /repo#=> $REPO#" go.mod > /verif/out/alt$SFX.mod && cp go.sum /verif/out/alt$SFX.sum
+  MODFILE="-modfile=/verif/out/alt$SFX.mod"
+  BIN=/verif/bin/check$SFX
+fi
 case "$ID" in
-  C07) BIN=/verif/bin/check-race; RACE="-race";;
+  C07) BIN=$BIN-race; RACE="-race";;
   *) RACE="";;
 esac
-if ! go build $TAGS $RACE -o "$BIN" ./cmd/check 2>/verif/out/build-$ID.log; then
+if ! go build $MODFILE $TAGS $RACE -o "$BIN" ./cmd/check 2>/verif/out/build-$ID.log; then
   cat /verif/out/build-$ID.log
   echo "BUILD-FAILED property=$ID (harness or /repo does not compile)"
   exit 3
 fi
 if [ "$ID" = "C15" ]; then
   # the crash tests kill the shipped command-line server, built with the hooks
-  if ! (cd /repo && go build -tags verif -o /verif/bin/gofakes3-verif ./cmd/gofakes3) 2>>/verif/out/build-$ID.log; then
+  export VERIF_SERVER_BIN=/verif/bin/gofakes3-verif$SFX
+  if ! (cd $REPO && go build -tags verif -o $VERIF_SERVER_BIN ./cmd/gofakes3) 2>>/verif/out/build-$ID.log; then
     cat /verif/out/build-$ID.log
     echo "BUILD-FAILED property=$ID (/repo/cmd/gofakes3 does not compile with -tags verif)"
     exit 3
